@@ -137,6 +137,7 @@ type prodCfg struct {
 	Poll    time.Duration
 	Dist    string
 	Rate    float64
+	RateSet bool // Rate is meant even when it is 0
 	Metrics bool // serve Prometheus metrics (the binary's --metrics_listen) on a free port
 }
 
@@ -229,7 +230,7 @@ func startProdOnce(c prodCfg) (*prodProc, error) {
 		}
 		files = append(files, keyPath)
 		rate := c.Rate
-		if rate == 0 {
+		if rate == 0 && !c.RateSet {
 			rate = 1e6
 		}
 		args = append(args, "--bastion_addr", c.Bastion, "--bastion_key_path", keyPath, "--bastion_rate_limit", fmt.Sprint(rate))
